@@ -319,15 +319,19 @@ def r4_read_paths(chk, repo):
         dom = cfg.dominators("n")
         final = [r for r in rets if enclosing(r.stmt, (ast.Try, ast.If)) is None]
         chk.check(bool(final) and all(d in dom[r] for r in final), "C04.R4", find, final[0].stmt if final else None, "a read path of find() returns without passing the broken-data decision", site_text="find: decision dominates the return")
-        # the two raises under it
-        need = {
-            "exception": lambda facts: ("'exception' in meta", True) in facts,
-            "writing_ended": lambda facts: ("'writing_ended' not in meta", True) in facts and ("allow_incomplete", False) in facts,
-        }
+        # the two raises under it; `meta` = the local holding the metadata of the found key
+        from ..pattern import find as pfind, pmatch
+        md = [(n, b) for n, b in pfind(find.node, "L_meta = self._get_backend(L_bn).get_metadata(L_bk)")]
+        chk.check(len(md) == 1, "C04.R4", find, None, "metadata inspected by the broken-data check is not that of the data being returned", site_text="find: meta = get_metadata(backend_key) of the found backend")
+        META = md[0][1]["L_meta"] if md else "meta"
+        if md:
+            BK = md[0][1]["L_bk"]
+            final_names = {x.id for r_ in final for x in ast.walk(r_.stmt.value) if isinstance(x, ast.Name)}
+            chk.check(BK in final_names, "C04.R4", find, md[0][0], "metadata inspected is not that of the key that is returned", site_text="find: inspected key is the returned key", nontrivial=False)
         dtrue = cfg.guards_of(d.stmt, True)
         expected = {
-            "exception": {("'exception' in meta", True)},
-            "writing_ended": {("'writing_ended' not in meta", True), ("allow_incomplete", False)},
+            "exception": {(f"'exception' in {META}", True)},
+            "writing_ended": {(f"'writing_ended' not in {META}", True), ("allow_incomplete", False)},
         }
         for key, want in expected.items():
             hit = False
@@ -338,16 +342,12 @@ def r4_read_paths(chk, repo):
                     for g in inner:
                         facts |= literals(g.test, g.polarity)
                     # an earlier sibling test that raised contributes its negation: ignore those
-                    facts = {(t, p) for t, p in facts if not (t == "'exception' in meta" and p is False)}
+                    facts = {(t, p) for t, p in facts if not (t == f"'exception' in {META}" and p is False)}
                     if inner and facts == want:
                         hit = True
             chk.check(hit, "C04.R4", find, None, f"find() does not raise DataNotAvailable exactly when the metadata {'has an exception marker' if key == 'exception' else 'lacks writing_ended and incomplete data is not allowed'}",
                       site_text=f"find: raise DataNotAvailable on the {key} test",
                       site={"function": find.qualname, "construct": f"raise on {key}"})
-        # meta comes from the found backend key
-        defs = Defs(find.node)
-        for val, st, how in defs.defs.get("meta", []):
-            chk.check("call:get_metadata" in atoms(val) and "backend_key" in atoms(val), "C04.R4", find, st, "metadata inspected by the broken-data check is not that of the data being returned", site_text="find: meta = get_metadata(backend_key)")
     # check_broken=False call sites
     ALLOWED = {"StorageFrontend.get_metadata": "needed to inspect broken data (and used by _can_overwrite)"}
     n = 0
@@ -370,6 +370,10 @@ def r4_read_paths(chk, repo):
               "StorageFrontend.loader does not look data up through the checked find()", site_text="StorageFrontend.loader: find(write=False) with the broken-data check")
     # _can_overwrite decision table
     co = repo.func("StorageFrontend._can_overwrite", COMMON)
+    from ..pattern import local_defined_as
+    MD, _a, _b = local_defined_as(co.node, "self.get_metadata(key)")
+    chk.check(MD is not None, "C04.R4", co, None, "_can_overwrite does not inspect the metadata of the existing data", site_text="_can_overwrite: metadata = self.get_metadata(key)")
+    MD = MD or "metadata"
     rows = 0
     for ov in ("never", "if_broken", "always"):
         for ended in (False, True):
@@ -377,13 +381,13 @@ def r4_read_paths(chk, repo):
                 def oracle(text, node, ov=ov, ended=ended, exc=exc):
                     if text.startswith("self.overwrite == "):
                         return text == f"self.overwrite == '{ov}'"
-                    if text == "'writing_ended' in metadata":
+                    if text == f"'writing_ended' in {MD}":
                         return ended
-                    if text == "'writing_ended' not in metadata":
+                    if text == f"'writing_ended' not in {MD}":
                         return not ended
-                    if text == "'exception' in metadata":
+                    if text == f"'exception' in {MD}":
                         return exc
-                    if text == "'exception' not in metadata":
+                    if text == f"'exception' not in {MD}":
                         return not exc
                     return None
                 from ..dtable import run as drun
@@ -398,7 +402,13 @@ def r4_read_paths(chk, repo):
     # DataDirectory._find: write path guarded by _can_overwrite; temp dir only with allow_incomplete
     df = repo.func("DataDirectory._find", FILES)
     dcfg = cfg_of(df)
-    hits = [n for n in dcfg.stmt_nodes() if isinstance(n.stmt, ast.Raise) and "DataExistsError" in norm(n.stmt.exc) and {("write", True), ("exists", True), ("self._can_overwrite(key)", False)} <= dcfg.guard_facts(n)]
+    from ..pattern import facts_matching as _fm, find as _pf
+    hits = []
+    for n in dcfg.stmt_nodes():
+        if isinstance(n.stmt, ast.Raise) and "DataExistsError" in norm(n.stmt.exc) and {("write", True), ("self._can_overwrite(key)", False)} <= dcfg.guard_facts(n):
+            for e, pol, g, b in _fm(dcfg, n, "L_ex", True):
+                if _pf(df.node, f"{b['L_ex']} = os.path.exists(L_dir)"):
+                    hits.append(n)
     chk.check(bool(hits), "C04.R4", df, None, "DataDirectory._find(write=True) does not refuse to overwrite existing data that may not be overwritten", site_text="DataDirectory._find: raise DataExistsError if exists and not _can_overwrite")
     ddefs = Defs(df.node)
     n_temp = 0
